@@ -290,6 +290,22 @@ theorem step (nd : Node) (older : List Node) (hr : refsOK older.length nd = true
       subst hq
       obtain ⟨h1, h2⟩ := refKey_odd older c hr hodd
       exact ⟨h1, _, h2, hEc, ok1, ok2⟩
+  | scat i k t c =>
+    simp only [refsOK] at hr
+    simp only [nodeExpr] at hE ha hfv ⊢
+    have hEc : GoodPt dv sz L n F id p (refExpr (table older) c) := ⟨hE.1.1, hE.2⟩
+    have hkn : k < n := fv_lt dv sz L hW _ hEc.1 k hE.1.2.1
+    obtain ⟨m1, m2⟩ := scatMsg_ok i k t hE.1.2.2.2.2.2.1 hkn a han ha.2
+    obtain ⟨ok1, ok2⟩ := agg_ok dv sz F (fvMask L (refExpr (table older) c)) _ m1 m2
+    constructor
+    · simp only [send, entry, List.map_cons, List.map_nil, List.sum_cons, List.sum_nil, add_zero]
+      rw [contrib_ref dv sz L n F id p older c hr]
+      simp only [tree, backward]
+    · intro q hq hodd
+      simp only [send, entry, List.map_cons, List.map_nil, List.mem_singleton] at hq
+      subst hq
+      obtain ⟨h1, h2⟩ := refKey_odd older c hr hodd
+      exact ⟨h1, _, h2, hEc, ok1, ok2⟩
   | prod v c =>
     simp only [refsOK] at hr
     simp only [nodeExpr] at hE ha hfv ⊢
